@@ -35,8 +35,10 @@ SHARED = {
             ("C36", "R2.fields-cover-the-encoded-public-numbers", "key equality used to accept the server's key compares every public number")],
     "C21": [("C01", "R8.compression-activation", "payload bytes arrive intact only if both ends (re)start compression together"),
             ("C19", "R6.peer-values-stored", "data is addressed to the channel number the peer chose")],
-    "C25": [("C19", "R4.packet-size-sanitised", "a clamped packet size keeps every slice handed to send() non-empty")],
-    "C27": [("C42", "R3.", "readline/read keep every buffered byte exactly once")],
+    "C25": [("C20", "R4.close-wakes-all-senders", "every sender blocked in sendall is woken when the channel closes, so that each of them raises"),
+            ("C19", "R4.packet-size-sanitised", "a clamped packet size keeps every slice handed to send() non-empty")],
+    "C27": [("C42", "R5.", "data handed to write() reaches the stream in the order it was written, buffered or not"),
+            ("C42", "R3.", "readline/read keep every buffered byte exactly once")],
     "C28": [("C30", "R6.request-number-under-lock", "prefetch replies are stored under the request that asked for them"),
             ("C27", "R3.seek-arithmetic-and-readahead-dropped", "readv seeks relative to the logical position")],
     "C31": [("C27", "R6.truncate", "truncate(size) by handle sets exactly the size asked for"),
@@ -54,4 +56,6 @@ SHARED = {
             ("C21", "R2.addressed-to-remote-id", "credit goes to the channel number the peer chose, or its window never reopens"),
             ("C19", "R6.advertised-is-tracked", "the window the peer is told is the window whose consumption triggers the next credit: otherwise the threshold is never reached")],
     "C32": [("C27", "R5.", "check-file reads through the handle: the hash covers the requested range only if the handle's tracked offset is the file's real one")],
+    "C34": [("C39", "R1.pair-agreement:get_text", "the path that is normalised is the text the client sent: a lenient decode lets bytes survive as part of a name")],
+    "C45": [("C36", "R3.ecdsa-coordinates-encoded-alike", "the key blob named in the request is the blob the agent listed, both coordinates at full width")],
 }
